@@ -17,7 +17,7 @@ def main():
     mods = a9.private_modules(fb)
     out = {}
     for a, s in sorted(ps):
-        if fb.fns[a].vis != "pub":
+        if fb.fns[a].vis not in ("pub", "n/a"):
             continue
         oa, os_, ra, rs = a9.region_diff(fb, a, s, mods)
         if oa or os_:
@@ -40,7 +40,7 @@ def main():
                                "Untriaged unless tables/C16_reasons.json names the pair. The check reports tokens that are NOT listed here.",
                    "pairs": out, "groups": groups, "unpaired_async": sorted(un)}, fh, indent=0, sort_keys=True)
     print("%d public entry pairs differ today (of %d); %d async functions have no same-path sync twin" % (
-        len(out), sum(1 for a, s in ps if fb.fns[a].vis == "pub"), len(un)))
+        len(out), sum(1 for a, s in ps if fb.fns[a].vis in ("pub", "n/a")), len(un)))
 
 
 if __name__ == "__main__":
